@@ -13,6 +13,7 @@ def _mk():
                                       RubiksCube, SlidingTilePuzzle, Snake, Sokoban, Sudoku, Tetris)
     from jumanji.environments.logic.graph_coloring.generator import RandomGenerator as GCGen
     from jumanji.environments.logic.minesweeper.generator import UniformSamplingGenerator as MSGen
+    from jumanji.environments.logic.minesweeper.reward import DefaultRewardFn as MSReward
     from jumanji.environments.logic.rubiks_cube.generator import ScramblingGenerator
     from jumanji.environments.logic.sliding_tile_puzzle.generator import RandomWalkGenerator as STGen
     from jumanji.environments.logic.sudoku.generator import DummyGenerator as SuDummy
@@ -39,7 +40,9 @@ def _mk():
         "GraphColoring": {"3": lambda: GraphColoring(GCGen(3, 0.5)), "4": lambda: GraphColoring(GCGen(4, 0.5)),
                           "5": lambda: GraphColoring(GCGen(5, 0.5))},
         "Minesweeper": {"2x2m1": lambda: Minesweeper(MSGen(2, 2, 1)), "3x4m3": lambda: Minesweeper(MSGen(3, 4, 3)),
-                        "4x3m2": lambda: Minesweeper(MSGen(4, 3, 2))},
+                        "4x3m2": lambda: Minesweeper(MSGen(4, 3, 2)),
+                        # reward constants given as Python ints (legal: the reward is configurable): the reward must still be float32
+                        "3x3m2ri": lambda: Minesweeper(MSGen(3, 3, 2), reward_function=MSReward(1, -3, -5))},
         "RubiksCube": {"2": lambda: RubiksCube(ScramblingGenerator(2, 3), time_limit=7), "3": lambda: RubiksCube(ScramblingGenerator(3, 3), time_limit=7),
                        "4": lambda: RubiksCube(ScramblingGenerator(4, 2), time_limit=7)},
         "SlidingTilePuzzle": {"2": lambda: SlidingTilePuzzle(STGen(2, 3), time_limit=7), "3": lambda: SlidingTilePuzzle(STGen(3, 3), time_limit=7)},
@@ -85,7 +88,7 @@ def ALL():
 
 
 QUICK = {
-    "Game2048": ["2", "3"], "GraphColoring": ["3", "4"], "Minesweeper": ["2x2m1", "3x4m3", "4x3m2"], "RubiksCube": ["2", "3"],
+    "Game2048": ["2", "3"], "GraphColoring": ["3", "4"], "Minesweeper": ["2x2m1", "3x4m3", "4x3m2", "3x3m2ri"], "RubiksCube": ["2", "3"],
     "SlidingTilePuzzle": ["2", "3"], "Sudoku": ["9x9"], "Knapsack": ["3", "5"], "JobShop": ["2x2x2x2", "3x2x2x3"],
     "BinPack": ["i2e3o3", "i2e3o2", "i2e3o3raw"], "FlatPack": ["2x2"], "Tetris": ["4x4", "5x4"],
     "Cleaner": ["3x5a2", "5x3a2", "3x3a1"], "Maze": ["5x7", "7x5", "3x3"], "TSP": ["3", "4"], "CVRP": ["3", "4"],
